@@ -17,6 +17,10 @@ verus! {
 //@ const actors/miner/src/monies.rs CONSENSUS_FAULT_FACTOR
 //@ const actors/miner/src/monies.rs LOCKED_REWARD_FACTOR_NUM
 //@ const actors/miner/src/monies.rs LOCKED_REWARD_FACTOR_DENOM
+//@ const runtime/src/builtin/network.rs SECONDS_IN_HOUR
+//@ const runtime/src/builtin/network.rs EPOCHS_IN_HOUR
+//@ item actors/miner/src/policy.rs VestSpec
+//@ const actors/miner/src/policy.rs REWARD_VESTING_SPEC
 
 // ---- the property's numbers, written independently of the source constants -----------------
 // "every early-terminated sector is charged a termination fee of at least 2% of its pledge and
@@ -49,6 +53,19 @@ pub open spec fn imax(a: int, b: int) -> int { if a >= b { a } else { b } }
     ensures
         r@ >= 0,                                            // "penalties are never negative"
         this_epoch_reward@ >= pow10_18() ==> r@ > 0,        // "... penalises the miner" (a reward of >= 1 FIL gives a positive penalty)
+//@ end
+
+//@ fn actors/miner/src/monies.rs locked_reward_from_reward
+    requires
+        reward@ >= 0,
+    ensures
+        // 75% of a block reward is locked (rounded down), never more than the reward itself
+        r.0@ == (3 * reward@) / 4,
+        0 <= r.0@ <= reward@,
+        // "vest linearly over 180 days in daily steps"
+        r.1.vest_period == 180 * 2880,
+        r.1.step_duration == 2880,
+        r.1.initial_delay == 0,
 //@ end
 
 pub proof fn lemma_frac_order(ip: int)
